@@ -1012,7 +1012,7 @@ META = {
              'only; the likelihood caller returns N exactly on "no observation or tie" (all cases enumerated); default CIGAR is len(sequence)M; '
              'SM/TF (always) and RX/DS (when defined) are written and no maybe-None result is subscripted unguarded. Does NOT decide base-call '
              'optimality or MD/reference agreement at runtime.'),
-    'technique': 'static analysis: API-existence resolution against installed libraries, linear-form symbolic execution of CIGAR arms, paired-update path check, comparison-predicate enumeration; small-scope abstract execution of get_CIGAR / the block merge on every list of <= 3 blocks over small coordinates',
+    'technique': 'static analysis: API-existence resolution against installed libraries, linear-form symbolic execution of CIGAR arms, paired-update path check, comparison-predicate enumeration; small-scope abstract execution of get_CIGAR / the block merge on every list of <= 3 blocks over small coordinates; partial-read generator on every list of <= 3 blocks x max_N_span, find_ranges on every subset of 0..7, create_MD_tag and the base caller on small alphabets',
     'design_ref': 'DESIGN.md section 5, C15',
 }
 
